@@ -21,14 +21,16 @@ EXTENDS Naturals, Sequences, FiniteSets, TLC, Json, IOUtils, TLCExt
 Batch == JsonDeserialize(IOEnv.TRACE_FILE)
 NT    == Len(Batch)
 
-VARIABLES tid, l, cur, nsent, nfollowed, pendingRedirect, outcome
-mvars == <<tid, l, cur, nsent, nfollowed, pendingRedirect, outcome>>
+VARIABLES tid, l, cur, nsent, nfollowed, pendingRedirect, outcome,
+          tunbad    \* a CONNECT request (tunnel through the proxy) without exactly one Host field naming its target
+mvars == <<tid, l, cur, nsent, nfollowed, pendingRedirect, outcome, tunbad>>
 
 T   == Batch[tid]
 Ev  == T.ev
 NoSend == [none |-> TRUE]
 
 MInit == tid \in 1..NT /\ l = 1 /\ cur = NoSend /\ nsent = 0 /\ nfollowed = 0 /\ pendingRedirect = FALSE /\ outcome = "running"
+         /\ tunbad = FALSE
 
 MNext ==
   /\ l <= Len(Ev) /\ l' = l + 1 /\ UNCHANGED tid
@@ -39,6 +41,7 @@ MNext ==
      /\ pendingRedirect' = IF e.e = "recv" THEN (e.status \in {301, 302, 303, 307, 308} /\ e.loc = "url")
                            ELSE IF e.e = "send" THEN FALSE ELSE pendingRedirect
      /\ outcome' = IF e.e = "outcome" THEN e.v ELSE outcome
+     /\ tunbad' = (tunbad \/ (e.e = "tunnel" /\ ~(e.wf /\ e.hosts = <<e.target>>)))
 
 MSpec == MInit /\ [][MNext]_mvars
 
@@ -65,6 +68,9 @@ CookieOK    == Sent => Range(cur.cookies) \subseteq {cur.exp.host}
 RefererOK   == Sent => (~(cur.referer = "https" /\ cur.exp.scheme = "http") /\ cur.refcred # "foreign")
 \* request line + fields + blank line, nothing smuggled in
 WellFormed  == Sent => (cur.wf /\ cur.method = "GET" /\ cur.nreferer <= 1)
+\* the request that opens a tunnel through the proxy (CONNECT host:port) is a request for that URL too (RFC 7230 5.4:
+\* a Host field in every HTTP/1.1 request, for CONNECT the authority of the request-target)
+TunnelOK    == ~tunbad
 \* redirect bound
 BoundOK     == nfollowed <= T.maxred /\ nsent <= 2 * (T.maxred + 1)
 \* the visit ends (no hang, no exception other than a protocol error)
@@ -75,12 +81,13 @@ ASSUME \A i \in 1..(2 * NT) : TLCSet(i, 0)
 \* every violated clause is reported: the verdict is a bit mask (bit k-1 = clause k), kept in a TLC register
 Viol(k) == CASE k = 1 -> ~Delivered [] k = 2 -> ~TargetOK [] k = 3 -> ~OneHostOK [] k = 4 -> ~AuthOK
              [] k = 5 -> ~CookieOK [] k = 6 -> ~RefererOK [] k = 7 -> ~WellFormed [] k = 8 -> ~BoundOK
-             [] k = 9 -> ~EndsOK
+             [] k = 9 -> ~EndsOK [] k = 10 -> ~TunnelOK
 Pow2(k) == CASE k = 0 -> 1 [] k = 1 -> 2 [] k = 2 -> 4 [] k = 3 -> 8 [] k = 4 -> 16 [] k = 5 -> 32
-             [] k = 6 -> 64 [] k = 7 -> 128 [] k = 8 -> 256
+             [] k = 6 -> 64 [] k = 7 -> 128 [] k = 8 -> 256 [] k = 9 -> 512
 Bit(m, k) == (m \div Pow2(k - 1)) % 2 = 1
 B(old, k) == IF Bit(old, k) \/ Viol(k) THEN Pow2(k - 1) ELSE 0
 Mask(old) == B(old, 1) + B(old, 2) + B(old, 3) + B(old, 4) + B(old, 5) + B(old, 6) + B(old, 7) + B(old, 8) + B(old, 9)
+             + B(old, 10)
 
 \* ... and for the per-request clauses 1..7 the line at which each was first violated, 4 bits per clause
 Pow16(k) == CASE k = 0 -> 1 [] k = 1 -> 16 [] k = 2 -> 256 [] k = 3 -> 4096 [] k = 4 -> 65536 [] k = 5 -> 1048576
